@@ -2,43 +2,84 @@ package c16
 
 import (
 	"fmt"
+	"os"
+	"sort"
 	"testing"
-	"time"
+
+	"github.com/nspcc-dev/neo-go/pkg/smartcontract/callflag"
+	"github.com/nspcc-dev/neo-go/pkg/smartcontract/trigger"
 )
 
-func TestDebugNatives(t *testing.T) {
-	t0 := time.Now()
+// TestTables prints the sizes of the finite tables (always) and, with VERIF_DEBUG=1, under which flag sets every
+// native method HALTs with its realistic argument tuples (vacuity control while developing the tables).
+func TestTables(t *testing.T) {
 	w, err := getWorld()
 	if err != nil {
 		t.Fatal(err)
 	}
-	fmt.Println("setup", time.Since(t0), "height", w.bc.BlockHeight(), "base items", len(w.base))
-	if err := w.sysTableCoverage(); err != nil {
-		t.Error(err)
+	if w.covErr != nil {
+		t.Error(w.covErr)
 	}
-	n := 0
-	for _, c := range w.natives {
-		for _, m := range c.Manifest.ABI.Methods {
-			n++
-			s := ""
-			for _, p := range m.Parameters {
-				s += fmt.Sprintf("%s:%s ", p.Name, p.Type)
+	cells, goOnlyCells := 0, 0
+	for _, s := range sysTable {
+		for _, v := range s.V {
+			cells += 3
+			if goOnly(v.Args(w)) {
+				goOnlyCells += 2
 			}
-			fmt.Printf("%s.%s(%s) -> %s safe=%v\n", c.Manifest.Name, m.Name, s, m.ReturnType, m.Safe)
 		}
 	}
-	fmt.Println("methods", n)
-}
-
-func TestDebugNatHalts(t *testing.T) {
-	w, err := getWorld()
-	if err != nil {
-		t.Fatal(err)
+	gold := 0
+	for _, m := range w.natMethods() {
+		gold += max(1, len(w.golden()[m.Name]))
 	}
-	t0 := time.Now()
-	r := w.natHaltReport()
-	for _, l := range r {
+	fmt.Printf("syscall rows %d, (row,variant,mode) cells %d of which %d skipped (go-only arguments), x16 flag sets\n", len(sysTable), cells, goOnlyCells)
+	fmt.Printf("native methods %d, realistic tuples %d (x2 call paths x4 signer modes x16 flag sets)\n", len(w.natMethods()), gold)
+	fmt.Printf("permission callers %d x callees 4 x methods 3 = %d end-to-end cells; base storage items %d, height %d\n", len(w.cs), len(w.cs)*12, len(w.base), w.bc.BlockHeight())
+	if os.Getenv("VERIF_DEBUG") == "" {
+		return
+	}
+	for _, l := range w.natHaltReport() {
 		fmt.Println(l)
 	}
-	fmt.Println("runs", len(r)*16, time.Since(t0))
+}
+
+// natHaltReport (debugging / vacuity control): for every native method, under which requested flag sets the realistic
+// tuples HALT and with which effects.
+func (w *world) natHaltReport() []string {
+	var out []string
+	for _, m := range w.natMethods() {
+		n := max(1, len(w.golden()[m.Name]))
+		for gi := 0; gi < n; gi++ {
+			for via := 0; via < 2; via++ {
+				c := NatCase{Method: m.Name, Golden: gi, Signers: 1, Via: via}
+				if m.Name == "OracleContract.finish/0" {
+					c.Signers = 3
+				}
+				args, _ := w.natArgs(m, c)
+				var hs []string
+				eff := ""
+				for f := 0; f < 16; f++ {
+					var script []byte
+					if via == 1 {
+						script = appCall(w.ps[0].Hash, "call", callflag.All, hb(m.C.Hash), m.M.Name, int64(f), args)
+					} else {
+						script = appCall(m.C.Hash, m.M.Name, callflag.CallFlag(f), args...)
+					}
+					ic, _ := w.newIC(trigger.Application, w.natTx(c.Signers))
+					ic.VM.LoadWithFlags(script, callflag.All)
+					o := w.run(ic, m.C.Hash, w.ps[0].Hash)
+					if o.Halt {
+						hs = append(hs, flagName(f))
+						eff = o.effects()
+					} else if f == 15 {
+						eff = "FAULT " + firstLine(o.Err)
+					}
+				}
+				sort.Strings(hs)
+				out = append(out, fmt.Sprintf("%-52s g%d via%d halts=%d %v  %s", m.Name, gi, via, len(hs), hs, clipS(eff, 260)))
+			}
+		}
+	}
+	return out
 }
